@@ -100,6 +100,12 @@ func (s ConsulSource) Certificates() chan []tls.Certificate {
 				log.Printf("[ERROR] cert: Failed to load certificates. %s", err)
 				continue
 			}
+			// a key prefix which is empty or gone at the moment does not
+			// take away the certificates in use
+			if len(certs) == 0 {
+				log.Printf("[WARN] cert: No certificates found in %s", s.CertURL)
+				continue
+			}
 			ch <- certs
 		}
 	}()
